@@ -314,7 +314,14 @@ class SubjectAnalysis:
             if id_active and obs_valid and not order_seen:
                 self.add('SUB.1', None, f'{short}: order parity', deliver.shortloc(), 'how the snapshot is filled from m_observers was not recognised (no insertion into a local container, no range construction)')
             if row_undecided is not None:
-                self.add('SUB.2', None, f'{short}::notify row {row}', row_undecided.shortloc(), f'some paths of the round depend on `{(row_undecided.text() or "")[:50]}`, a test of a member outside the delivery tables: not followed')
+                shared = self._round_state_shared(f, deliver, row_undecided)
+                if shared is not None:
+                    xname, wsite = shared
+                    self.add('SUB.2', False, f'{short}::notify: what a round remembers about itself is local to the round', wsite,
+                             f'the re-validation of the id is skipped on `{xname}`, a member that notify() itself resets at the start of every round ({wsite}): rounds nest (a callback may call notify()), '
+                             f'the inner round resets the outer round\'s `{xname}`, and the outer round then invokes an observer that was unsubscribed before its turn', key='SUB.2|round-state-shared')
+                else:
+                    self.add('SUB.2', None, f'{short}::notify row {row}', row_undecided.shortloc(), f'some paths of the round depend on `{(row_undecided.text() or "")[:50]}`, a test of a member outside the delivery tables: not followed')
             if 'noloop' in bad:
                 self.add('SUB.2', None, f'{short}::notify row {row}', site, 'the iterations of the delivery loop were not identified on the evaluated paths'); continue
             if n_paths == 0: continue
@@ -326,6 +333,21 @@ class SubjectAnalysis:
                 bad['lazy'] = 'an observer that reports invalid after its call is not removed from both m_observers and m_activeSubscriptions'
             if id_active and not obs_valid:
                 self.add('SUB.6', 'lazy' not in bad, f'{short}::notify row {row}: an invalidated observer is removed with its snapshot id', site, bad.get('lazy', ''), key='SUB.6|lazy')
+
+    def _round_state_shared(self, f, deliver, cond):
+        """(member, site) if the condition `cond` of the delivery loop reads a scalar member that notify() itself assigns a constant before
+        the loop (a per-round flag kept in the object: nested rounds share it); else None"""
+        names = {x.name for x in cond.walk() if x.k == 'member' and x.field and x.name in ObsDomain.extra_scalars}
+        if not names: return None
+        inloop = {x.id for x in deliver.walk()}
+        for n in f.nodes():
+            if n.id in inloop: continue
+            if n.k == 'binop' and n.op == '=' and n.n('lhs') is not None and n.n('lhs').k == 'member' and n.n('lhs').field and n.n('lhs').name in names \
+                    and n.n('lhs').n('base') is not None and n.n('lhs').n('base').k == 'this':
+                r = n.n('rhs')
+                while r is not None and r.k == 'cast': r = r.n('sub')
+                if r is not None and r.k in ('bool', 'int'): return n.n('lhs').name, n.shortloc()
+        return None
 
     def _inside_removal(self, E, i):
         """event i lies inside a helper that removes from m_observers / m_activeSubscriptions (enter ... leave bracket containing a removal)"""
